@@ -33,6 +33,7 @@ R1 == Rep1({A}, {B})
 R2 == Rep1(R1 \cup {A}, {C}) \cup Rep1({C}, R1 \cup {B})
 R3 == Rep1(R2, {A}) \cup Rep1({A}, R2) \cup {Bin(op, l, r) : op \in RepOps, l \in R1, r \in R1}
 
+R4F(zz) == Rep1(R3, {B}) \cup Rep1({B}, R3)        \* four operator nodes over the representatives (thorough); parametrised: not evaluated at start-up
 NegLit == {Bin(op, C, Neg(One)) : op \in BinOps} \cup {Bin(op, Neg(One), C) : op \in BinOps} \cup {IdxT(A, Neg(One)), InT(FALSE, A, <<Neg(One)>>), CallT("abs", <<Neg(One)>>)}
 \* three operators in the shapes "low, tighter, low" and "tighter after low": a - b * c - d, a - b::int - c, a * b - c / d ...
 D == Atom("2")
@@ -41,7 +42,7 @@ Tight(x, y) == {Bin(op, x, y) : op \in {"*", "/", "+", "-", "="}} \cup {CastT(x,
 Shapes3 == {Bin(o3, Bin(o1, A, X), D) : o1 \in ShapeOps, o3 \in ShapeOps, X \in Tight(B, C)}
            \cup {Bin(o1, A, Bin(o3, X, D)) : o1 \in ShapeOps, o3 \in ShapeOps, X \in Tight(B, C)}
            \cup {Bin(o3, Bin(o1, X, A), D) : o1 \in ShapeOps, o3 \in ShapeOps, X \in Tight(B, C)}
-Trees == Shapes3 \cup T1 \cup T1x \cup T2 \cup NegLit \cup (IF Depth >= 3 THEN R3 ELSE {})
+Trees == Shapes3 \cup T1 \cup T1x \cup T2 \cup NegLit \cup (IF Depth >= 3 THEN R3 ELSE {}) \cup (IF Depth >= 4 THEN R4F(0) ELSE {})
 
 VARIABLE t
 Init == t \in Trees
